@@ -40,7 +40,7 @@ for pid in sorted({e[0] for e in entries}):
     log = f"/dev/shm/runall/{pid}.quick.log"
     if not os.path.exists(log):
         print("no log for", pid, "- keeping its entries open"); confirmed[pid] = None; continue
-    confirmed[pid] = set(re.findall(r"\[sig=([^\]]+)\]", open(log).read()))
+    confirmed[pid] = set(re.findall(r"\[sig=(.+)\]$", open(log).read(), re.M))
 out_open = []
 for pid, sig, replay, what in entries:
     if confirmed[pid] is None or sig in confirmed[pid]:
